@@ -19,6 +19,7 @@ type Budget struct {
 	Stage2    int // how many first-incarnation images are continued into a second incarnation
 	Points2   int // crash points per second incarnation
 	Workers   int
+	AllAcks   bool // every point right after an acknowledgement is a crash point
 	OnlyPol   []string // restrict the image policies (directed scenarios, replay)
 	OnlyPoint int      // restrict to one crash point (replay); 0 = no restriction
 	OnlyPol2  []string
@@ -123,14 +124,16 @@ func endOfWorkload(evs []Event) int {
 
 // choosePoints: crash point p means "events[0..p) happened". Points right after an event that
 // changed what is on disk or what is acknowledged are the interesting ones; the rest is sampled.
-func choosePoints(evs []Event, n int, budget int, rng *rand.Rand) []int {
-	var hot, cold []int
+func choosePoints(evs []Event, n int, budget int, rng *rand.Rand, allAcks bool) []int {
+	var hot, cold, acks []int
 	for p := 1; p <= n; p++ {
 		e := evs[p-1]
 		if e.Kind == "open" && len(e.Writes) == 0 && len(e.Created) > 0 && p < 12 {
 			continue // store creation
 		}
-		if len(e.Writes) > 0 || len(e.Synced) > 0 || e.Kind == "ack" {
+		if allAcks && e.Kind == "ack" {
+			acks = append(acks, p)
+		} else if len(e.Writes) > 0 || len(e.Synced) > 0 || e.Kind == "ack" {
 			hot = append(hot, p)
 		} else {
 			cold = append(cold, p)
@@ -144,6 +147,7 @@ func choosePoints(evs []Event, n int, budget int, rng *rand.Rand) []int {
 		return l[:k]
 	}
 	ps := append(pick(hot, budget*4/5), pick(cold, budget/5)...)
+	ps = append(ps, acks...)
 	sort.Ints(ps)
 	return ps
 }
@@ -161,7 +165,7 @@ type job struct {
 func Explore(w *Workload, b Budget, rng *rand.Rand, st *Stats) []string {
 	evs := w.Rec.Events
 	n := endOfWorkload(evs)
-	points := choosePoints(evs, n, b.Points, rng)
+	points := choosePoints(evs, n, b.Points, rng, b.AllAcks)
 	if b.OnlyPoint > 0 {
 		points = []int{b.OnlyPoint}
 	}
@@ -303,7 +307,7 @@ func runJob(w *Workload, j job, b Budget, rng *rand.Rand, st *Stats, report func
 			refs2[id] = r
 		}
 	}
-	points := choosePoints(evs2, len(evs2), b.Points2, rng)
+	points := choosePoints(evs2, len(evs2), b.Points2, rng, false)
 	want := map[int]bool{}
 	for _, p := range points {
 		want[p] = true
